@@ -8,7 +8,7 @@
     collectors, any interleaving of the threads' operations, any default collector at any point (SetDefault / CloseScope
     are ordinary operations of the program, including "no collector"). *)
 From Coq Require Import List NArith Bool.
-From TV Require Import SpanApi.Model SpanApi.Spec SpanApi.Proofs SpanApi.ShapeSyntax SpanApi.Shapes SpanApi.ShapesProofs SpanApi.WireProofs.
+From TV Require Import SpanApi.Model SpanApi.Spec SpanApi.Proofs SpanApi.ShapeSyntax SpanApi.Shapes SpanApi.ShapesProofs SpanApi.WireProofs SpanApi.ExitUnwind.
 From TVGen Require Gen_span.
 Import ListNotations.
 Local Open Scope N_scope.
@@ -248,3 +248,20 @@ Theorem C03_shapes_sensitive :
   emit_tbl shapes_B (mkOwn [(0, KFut)] []) 0 (IntoInner 0) = Some [MMark 0 (MInnerDrop 0)].
 Proof. exact shapes_sensitive. Qed.
 Print Assumptions C03_shapes_sensitive.
+
+(** The unwind path of `EnteredSpan::exit` (SpanApi/ExitUnwind.v): with the row the source has (the span is moved into a
+    local BEFORE `do_exit` runs), whether or not the collector's exit callback panics there is exactly one exit callback;
+    if the call returns the caller owns the handle and nothing was closed; if it unwinds the handle is gone and the
+    collector has received exactly one close notification.  The row is the one C03_source_shapes ties to the source. *)
+Theorem C03_exit_unwind_closes_once : exit_ok exit_row_model /\ lookup_row model_shapes row_entered_exit = Some exit_row_model.
+Proof. exact (conj exit_row_unwind_safe exit_row_model_lookup). Qed.
+Print Assumptions C03_exit_unwind_closes_once.
+
+(** Non-vacuity / sensitivity: the ManuallyDrop::new(self) + ptr::read shape (seeded C03-I) agrees on the normal path and
+    fails the same statement: on the unwind path nobody owns the span and no close notification is ever sent. *)
+Theorem C03_exit_manually_drop_refuted :
+  (exit_ok row_manually_drop -> False) /\
+  (let s := urun false row_manually_drop u0 in exits s = 1%nat /\ where_ s = Returned /\ closes s = 0%nat) /\
+  (let s := urun true row_manually_drop u0 in where_ s = InSelf /\ self_forgotten s = true /\ closes s = 0%nat).
+Proof. exact (conj exit_row_manually_drop_refuted (conj exit_row_manually_drop_normal_path exit_row_manually_drop_leaks)). Qed.
+Print Assumptions C03_exit_manually_drop_refuted.
